@@ -36,6 +36,7 @@ rng = random.Random(a.seed * 7919 + (17 if a.prop == "C17" else 18))
 SIGS = [1, 10, 12, 23]          # SIGHUP SIGUSR1 SIGUSR2 SIGURG  (17 = SIGCHLD only through process watches)
 FDS = list(range(100, 106))
 PIDS = list(range(1000000000, 1000000004))
+PIDS8 = list(range(1000000000, 1000000008))   # the harness knows eight virtual children
 T0 = 1000 * 1000000             # the harness's clock starts at 1000 s
 
 stats = collections.Counter()
@@ -85,7 +86,7 @@ class Hist:
             return f"T,{k},0,{flags}"
         if c < 0.50:
             stats["cb_timer_future"] += 1
-            return f"T,{k},{rng.choice([1, 5, 10, 1500])},{flags}"
+            return f"T,{k},{rng.choice([1, 5, 10, 1500, 400, 900])},{flags}"
         if c < 0.80:
             stats["cb_timer_past"] += 1
             us = self.clock - rng.choice([1, 1000, 5000000])
@@ -212,7 +213,7 @@ class Hist:
             if c < 0.25:
                 op = f"timer {k} 0 {f}"; stats["top_timer_now"] += 1
             elif c < 0.55:
-                op = f"timer {k} {rng.choice([1, 5, 5, 10, 10, 1500])} {f}"; stats["top_timer_future"] += 1
+                op = f"timer {k} {rng.choice([1, 5, 5, 10, 10, 1500, 300, 700, 999])} {f}"; stats["top_timer_future"] += 1
             elif c < 0.70:
                 us = self.clock - rng.choice([1, 1000, 3000000]); stats["top_timer_past"] += 1
                 op = f"timer_at {k} {us // 1000000} {us % 1000000} {f}"
@@ -257,7 +258,7 @@ class Hist:
                 k = 90
             self.ops.append(f"cancel {k}")
         elif c < t[2]:
-            us = rng.choice([1, 999, 1000, 5000, 5000, 10000, 10000, 1500000])
+            us = rng.choice([1, 999, 1000, 5000, 5000, 10000, 10000, 1500000, 733337, 260001, 999999])
             self.clock += us
             self.ops.append(f"clock {us}")
             stats["clock"] += 1
@@ -396,9 +397,272 @@ def multi_history(focus):
     return h.ops
 
 
+
+def carry_history(focus):
+    """relative timers registered at a moment whose microsecond part plus the delay's crosses a second
+    (tickit_watch_timer_after_msec adds two timevals), the loop woken after the second boundary and before the
+    deadline (a non-blocking iteration, another timer, a deferred callback), equal/nearby absolute deadlines"""
+    h = Hist(focus)
+    stats["histories_carry"] += 1
+    us = rng.choice([600000, 750000, 900000, 999000, 999999, 500001, 999001]) + rng.choice([0, 0, 1, 37, 999])
+    us = min(us, 999999)
+    h.ops.append(f"clock {us}"); h.clock += us; stats["clock"] += 1
+    n = rng.choice([1, 1, 2, 3])
+    need = 1000000 - us                      # microseconds to the next whole second
+    delays = []
+    for i in range(n):
+        # a delay whose microsecond part reaches the boundary (and sometimes one that does not)
+        lo = (need + 999) // 1000
+        ms = rng.choice([lo, lo + 1, min(999, lo + rng.randint(0, 300)), 999, 1000 + lo, rng.randint(1, 999)])
+        ms = max(1, ms)
+        delays.append(ms)
+        k = h.slot("timer")
+        f = h.flags()
+        behs = []
+        if rng.random() < 0.4:
+            h.add_beh(k, "timer", 0, behs)
+        h.ops += behs
+        if rng.random() < 0.25:
+            # registered from inside a callback that runs now
+            k0 = h.slot("later")
+            h.ops.append(f"beh {k0} 0 T,{k},{ms},{f}")
+            h.ops.append(f"later {k0} 0")
+            h.ops.append("tick"); stats["tick"] += 1
+            stats["carry_timer_in_cb"] += 1
+        else:
+            h.ops.append(f"timer {k} {ms} {f}")
+            stats["carry_timer_top"] += 1
+        h.top_live.append(k)
+        if rng.random() < 0.4:
+            # an absolute deadline close to it (just before, equal, just after)
+            d = h.clock + ms * 1000 + rng.choice([-1, 0, 1, -1000, 1000])
+            k2 = h.slot("timer")
+            h.ops.append(f"timer_at {k2} {d // 1000000} {d % 1000000} {h.flags()}")
+            h.top_live.append(k2); stats["carry_abs_neighbour"] += 1
+    # wake-ups between the second boundary and the deadlines
+    first = min(delays) * 1000
+    for _ in range(rng.choice([1, 2, 2, 3])):
+        c = rng.random()
+        if c < 0.6:
+            room = first - need
+            step = need + (rng.choice([0, 1, room // 2, max(0, room - 1)]) if room > 0 else 0)
+            step = max(1, step - (h.clock - (T0 + us)))
+            h.ops.append(f"clock {step}"); h.clock += step; stats["clock"] += 1
+            h.ops.append("tick"); stats["tick"] += 1; stats["carry_wake_nohang"] += 1
+        elif c < 0.8:
+            k = h.slot("later"); h.ops.append(f"later {k} {h.flags()}")
+            h.ops.append("tickhang"); stats["tickhang"] += 1
+        else:
+            h.ops.append("tickhang"); stats["tickhang"] += 1
+    for _ in range(rng.randint(0, 6)):
+        h.step()
+    h.ops.append(f"clock {rng.choice([1000000, 2000000, 999999])}")
+    h.finish()
+    stats["histories"] += 1
+    stats["ops_len_%02d" % (len(h.ops) // 10 * 10)] += 1
+    return h.ops
+
+
+def unbind_history(focus):
+    """unbind handlers that act: a watch bound with UNBIND is cancelled from outside; its handler registers timers whose
+    deadlines fall before / between / equal to / after those of the cancelled timer and its neighbours, deferred
+    callbacks (also BIND_FIRST, while the cancelled one is the head of the queue or not), or watches of other kinds"""
+    h = Hist(focus)
+    stats["histories_unbind"] += 1
+    base = h.clock
+    offs = [rng.choice([0, 1000, 5000, 5000, 10000, 20000]) for _ in range(rng.choice([1, 2, 3, 3, 4]))]
+    timers = []
+    for o in sorted(offs) if rng.random() < 0.7 else offs:
+        k = h.slot("timer")
+        f = rng.choice([2, 2, 6, 3, 0, 4])
+        behs = []
+        if rng.random() < 0.2:
+            h.add_beh(k, "timer", 0, behs)
+        h.ops += behs
+        d = base + o
+        h.ops.append(f"timer_at {k} {d // 1000000} {d % 1000000} {f}" if rng.random() < 0.7 else f"timer {k} {o // 1000} {f}")
+        timers.append((k, o)); h.top_live.append(k)
+    laters = []
+    for _ in range(rng.choice([0, 1, 2, 3])):
+        k = h.slot("later")
+        f = rng.choice([2, 2, 6, 3, 0])
+        h.ops.append(f"later {k} {f}")
+        if f & 1: laters.insert(0, k)
+        else: laters.append(k)
+        h.top_live.append(k)
+    others = []
+    for _ in range(rng.choice([0, 0, 1, 2])):
+        n0 = len(h.ops)
+        h.reg_top(rng.choice(["io", "signal", "process"]))
+        others.append(h.next_slot - 1)
+    # handlers
+    cands = [k for k, _ in timers] + laters + others
+    rng.shuffle(cands)
+    victims = cands[:rng.choice([1, 1, 2, 3])]
+    for v in victims:
+        acts = []
+        for _ in range(rng.choice([1, 1, 2])):
+            c = rng.random()
+            if c < 0.5:
+                n = h.slot("timer")
+                o = rng.choice([o for _, o in timers] or [5000]) + rng.choice([-1000, -1, 0, 1, 1000, -3000, 3000])
+                d = base + o
+                acts.append(f"A,{n},{d // 1000000},{d % 1000000},{h.flags()}" if rng.random() < 0.8 else f"T,{n},{max(0, o // 1000)},{h.flags()}")
+                stats["ubeh_timer"] += 1
+            elif c < 0.85:
+                n = h.slot("later")
+                acts.append(f"L,{n},{rng.choice([1, 1, 3, 0, 2, 5])}")
+                stats["ubeh_later"] += 1
+            else:
+                behs = []
+                acts.append(h.gen_reg_action(2, behs))
+                h.ops += behs
+                stats["ubeh_other"] += 1
+            if rng.random() < 0.25:
+                h.add_beh(n if c < 0.85 else h.next_slot - 1, "timer", 1, h.ops)
+        h.ops.append(f"ubeh {v} " + " ".join(acts)); stats["ubeh"] += 1
+    for _ in range(rng.randint(0, 2)):
+        h.step()
+    order = victims[:]
+    rng.shuffle(order)
+    for v in order:
+        if rng.random() < 0.9:
+            h.ops.append(f"cancel {v}"); stats["cancel_top_ubeh"] += 1
+            if v in h.top_live: h.top_live.remove(v)
+        if rng.random() < 0.4:
+            h.ops.append(rng.choice(["tick", "clock 5000", "clock 1000", "tickhang"]))
+    for _ in range(rng.randint(0, 4)):
+        h.step()
+    h.ops.append(f"clock {rng.choice([5000, 10000, 30000])}")
+    h.finish()
+    stats["histories"] += 1
+    stats["ops_len_%02d" % (len(h.ops) // 10 * 10)] += 1
+    return h.ops
+
+
+def winch_history(focus):
+    """stand-alone terminals observing SIGWINCH next to the instance (`new … tt`): a second terminal joins / leaves the
+    observers (tickit_term_observe_sigwinch) after the loop has started watching SIGWINCH; the signal then arrives
+    before the next iteration, inside the wait, or from a callback"""
+    h = Hist(focus)
+    h.ops[0] += " tt"
+    stats["histories_tt"] += 1
+    observing = False
+    for _ in range(rng.choice([0, 1, 1, 2])):
+        k = h.slot("signal"); f = h.flags(); behs = []
+        if rng.random() < 0.3:
+            h.add_beh(k, "signal", 0, behs)
+        h.ops += behs
+        h.ops.append(f"signal {k} 28 {f}")
+        h.watched_sigs.add(28); h.persistent.append(k); h.top_live.append(k)
+    for _ in range(rng.choice([0, 1, 2])):
+        h.reg_top()
+    for _ in range(rng.choice([1, 2, 2, 3])):
+        c = rng.random()
+        if c < 0.75:
+            observing = not observing
+        h.ops.append(f"obs {1 if observing else 0}"); stats["obs"] += 1
+        for _ in range(rng.randint(0, 2)):
+            h.step()
+        c = rng.random()
+        if c < 0.5:
+            h.ops.append("raise 28"); stats["raise_pre"] += 1
+        elif c < 0.75:
+            h.ops.append("inpoll 28"); stats["raise_inpoll"] += 1
+        elif h.watched_sigs:
+            h.ops.append(f"raise {rng.choice(sorted(h.watched_sigs))}"); stats["raise_pre"] += 1
+        for _ in range(rng.choice([1, 2, 3])):
+            h.ops.append(rng.choice(["tick", "tick", "tick", "tickhang"])); stats["tick"] += 1
+        if len(h.ops) > 36:
+            break
+    h.finish()
+    stats["histories"] += 1
+    stats["ops_len_%02d" % (len(h.ops) // 10 * 10)] += 1
+    return h.ops
+
+
+def sigchld_history(focus):
+    """SIGCHLD watched by the application next to process watches: the library's own SIGCHLD watcher (it reaps the
+    children and invokes the process watches) runs among the user's watchers of the same signal; four and more
+    live process watches; children exit, the signal arrives before / inside the wait / from a callback"""
+    fb = rng.random() < 0.15
+    h = Hist(focus, fb)
+    stats["histories_sigchld"] += 1
+    if fb:
+        stats["histories_fb"] += 1
+
+    def user17():
+        k = h.slot("signal")
+        f = h.flags()
+        behs = []
+        if rng.random() < 0.35:
+            h.add_beh(k, "signal", 0, behs)
+        h.ops += behs
+        h.ops.append(f"signal {k} 17 {f}")
+        h.watched_sigs.add(17)
+        h.persistent.append(k); h.top_live.append(k)
+        stats["reg_top_signal_sigchld"] += 1
+
+    def proc(pid):
+        k = h.slot("process")
+        f = h.flags()
+        behs = []
+        if rng.random() < 0.3:
+            h.add_beh(k, "process", 0, behs)
+        h.ops += behs
+        h.ops.append(f"process {k} {pid} {f}")
+        h.top_live.append(k)
+        stats["reg_top_process"] += 1
+
+    for _ in range(rng.choice([0, 1, 1, 2])):
+        user17()
+    if rng.random() < 0.3:
+        h.reg_top("signal")
+    pids = PIDS8[:]
+    rng.shuffle(pids)
+    nproc = rng.choice([1, 2, 3, 4, 4, 5, 5, 6, 7, 8])
+    watched = pids[:nproc]
+    first = rng.randint(1, nproc)
+    for p in watched[:first]:
+        proc(p)
+    for _ in range(rng.choice([1, 1, 2, 3])):
+        user17()
+    for p in watched[first:]:
+        proc(p)
+    if rng.random() < 0.3:
+        proc(rng.choice(watched))          # two watches of one child
+    if rng.random() < 0.3:
+        user17()
+    for _ in range(rng.choice([1, 2, 2, 3])):
+        for p in rng.sample(watched, rng.randint(1, min(3, len(watched)))):
+            h.ops.append(f"exit {p} {rng.choice([0, 256, 9])}"); stats["exit"] += 1
+        c = rng.random()
+        if c < 0.45:
+            h.ops.append("raise 17"); stats["raise_pre"] += 1
+        elif c < 0.85:
+            h.ops.append("inpoll 17"); stats["raise_inpoll"] += 1
+        h.ops.append(rng.choice(["tick", "tick", "tickhang"])); stats["tick"] += 1
+        for _ in range(rng.randint(0, 3)):
+            h.step()
+        if len(h.ops) > 40:
+            break
+    h.finish()
+    stats["histories"] += 1
+    stats["ops_len_%02d" % (len(h.ops) // 10 * 10)] += 1
+    return h.ops
+
 def random_history(focus):
-    if rng.random() < 0.2:
+    c = rng.random()
+    if c < 0.2:
         return multi_history(focus)
+    if c < 0.28:
+        return carry_history(focus)
+    if c < 0.36:
+        return sigchld_history(focus)
+    if c < 0.42:
+        return winch_history(focus)
+    if c < 0.52:
+        return unbind_history(focus)
     fb = rng.random() < 0.25
     h = Hist(focus, fb)
     if fb:
